@@ -468,9 +468,10 @@ def expected(call: Call) -> list[Any]:
             acts = steps[k] if k < len(steps) else [["finish"]]
             emitted = None
             finished = False
+            post: list[Any] = []  # logs emitted AFTER the step's data batch: they follow it (and precede the next event)
             for act in acts:
                 if act[0] == "log":
-                    tr.append(["log", act[1], act[2], dict(act[3]) if len(act) > 3 and act[3] else {}])
+                    (post if emitted is not None else tr).append(["log", act[1], act[2], dict(act[3]) if len(act) > 3 and act[3] else {}])
                 elif act[0] == "emit":
                     emitted = ["batch", rows_for(out, k, act[1]), dict(act[2]) if len(act) > 2 and act[2] else {}]
                 elif act[0] == "finish":
@@ -481,6 +482,7 @@ def expected(call: Call) -> list[Any]:
             k += 1
             if emitted is not None:
                 tr.append(emitted)
+                tr.extend(post)
                 n += 1
                 if finished:
                     if take is None or n < take:
@@ -503,9 +505,10 @@ def expected(call: Call) -> list[Any]:
             acts = steps[k] if k < len(steps) else [["echo", 1, None]]
             xs = spec if isinstance(spec, list) else spec.get("expect_x")
             emitted = None
+            xpost: list[Any] = []
             for act in acts:
                 if act[0] == "log":
-                    tr.append(["log", act[1], act[2], dict(act[3]) if len(act) > 3 and act[3] else {}])
+                    (xpost if emitted is not None else tr).append(["log", act[1], act[2], dict(act[3]) if len(act) > 3 and act[3] else {}])
                 elif act[0] == "echo":
                     emitted = [
                         "batch",
@@ -522,6 +525,7 @@ def expected(call: Call) -> list[Any]:
                 tr.append(["error", None, None])
                 return tr
             tr.append(emitted)
+            tr.extend(xpost)
             n += 1
         if take is None:
             fin = "close"
